@@ -1830,12 +1830,8 @@ def _coerce_to_expr_ast_MatchOr(
             _, _, ln, col = pat.f.loc
             end_ln, end_col = next_delims(lines, ln, col, ast_end_ln, ast_end_col)[-1]
 
-            ret = BinOp(left=ret, op=BitOr(), right=right, lineno=ret.lineno, col_offset=ret.col_offset,
+            ret = BinOp(left=ret, op=BitOr(), right=right, lineno=ast.lineno, col_offset=ast.col_offset,  # every BinOp of the chain starts where the MatchOr starts, the first operand may be parenthesized
                         end_lineno=end_ln + 1, end_col_offset=lines[end_ln].c2b(end_col))
-
-    if is_FST:  # need this because of parentheses
-        ret.lineno = ast.lineno
-        ret.col_offset = ast.col_offset
 
     return ret, 2, False  # we do not unmake trees here for subpatterns because this return signals that the whole tree needs to be unmade (FST nodes will be recreated)
 
